@@ -646,6 +646,69 @@ reg("Validated", Validated, [{"lo": 1, "hi": 2, "inner": {"lo": 3, "hi": 1}}, {"
 
 
 @dataclass
+class Order:
+    """Validators whose field dependencies are found through a chain of properties / methods
+    (apischema.validation.dependencies): a validator is skipped when all the fields it depends on
+    are defaulted, so data omitting the defaulted fields observe the dependency analysis."""
+
+    qty: int
+    price: int
+    shipping: int = 0
+    note: Optional[str] = None
+
+    @property
+    def subtotal(self):
+        return self.qty * self.price
+
+    @property
+    def total(self):
+        return self.subtotal + self.shipping
+
+    def _weight(self):
+        return self.qty * 2 + self.shipping
+
+    @validator
+    def total_positive(self):
+        if self.total < 0:
+            raise ValidationError("negative total")
+
+    @validator
+    def subtotal_small(self):
+        if self.subtotal > 1000:
+            yield "subtotal too big"
+
+    @validator
+    def weight_ok(self):
+        if self._weight() > 500:
+            yield "too heavy"
+
+    @validator
+    def note_ok(self):
+        if self.note is not None and not self.note and self.total > 10:
+            yield "empty note"
+
+
+@dataclass
+class OrderBook:
+    orders: List[Order] = field(default_factory=list)
+    best: Optional[Order] = None
+
+    @validator
+    def best_listed(self):
+        if self.best is not None and self.orders and self.best.total > max(o.total for o in self.orders):
+            yield "best not listed"
+
+
+reg("Order", Order, [{"qty": -5, "price": 3}, {"qty": 1, "price": 2}, {"qty": 50, "price": 30, "shipping": 1},
+                     {"qty": 300, "price": 1}, {"qty": 4, "price": 4, "note": ""}, {"qty": "x"}],
+    [lambda: Order(1, 2, 3, "n")], "Order")
+reg("OrderBook", OrderBook, [{"orders": [{"qty": -5, "price": 3}, {"qty": 1, "price": 1}]},
+                             {"best": {"qty": 9, "price": 9}, "orders": [{"qty": 1, "price": 1}]},
+                             {"best": {"qty": 600, "price": 2}}],
+    [lambda: OrderBook([Order(1, 2)], Order(1, 2))], "Order")
+
+
+@dataclass
 class WithSerialized:
     n: int
     kids: List["WithSerialized"] = field(default_factory=list)
